@@ -47,6 +47,27 @@ CLAIMS = {
         "orbitals seen through mo.nelec/mo.spinpol; doubles exact on the dyadic alphabet (the theorems are over Q).",
         "DESIGN.md §5 C11, Appendix A.1",
     ),
+    "C12": (
+        "Lean theorems over ALL assignment histories on MolecularOrbitals (Reachable = successful construction + any "
+        "List Op; invariant Inv: kind/counts fit, every array has norb entries, occs_aminusb only when restricted; "
+        "construction accepts exactly Inv): restricted occsa+occsb = occs entry-wise, unrestricted occsa++occsb = occs "
+        "with norba/norbb entries; nelec = sum occs = alpha+beta totals; spinpol = |alpha total - beta total| in all "
+        "three restricted branches (integer heuristic, fractional, explicit occs_aminusb) and unrestricted; alpha/beta "
+        "views of coeffs/energies/irreps are the documented slices of the right lengths; occsa/occsb assignments read "
+        "back exactly and leave the other spin unchanged (restricted two-field rewrite, fresh object, unrestricted "
+        "in-place block); generalized orbitals refuse every spin-resolved accessor and setter; wrong lengths -> "
+        "TypeError, occs_aminusb on non-restricted -> ValueError, object unchanged. Shell: accepted iff coeffs is "
+        "(nexp, ncon) and angmoms/kinds have ncon entries (TypeError otherwise), kept by any assignment history; nbasis "
+        "= sum of (l+1)(l+2)/2 | 2l+1 (pure, l>=2), any other kind TypeError. Model tied to orbitals.py/basis.py by "
+        "operation-sequence correspondences (exhaustive construct x assignment tuples + random; shells random), "
+        "ast-extracted field/validator/refusal tables proved equal to the model's, and a direct search on real objects.",
+        "Lean 4 proof (invariant + induction over histories, list/sum lemmas, grind for field arithmetic, decide +kernel "
+        "for generated tables and witnesses) + model-vs-code correspondence over operation sequences",
+        "Modelled: attrs validator order/semantics; numpy 1-D broadcasting, slice assignment, astype(int), clip; coeffs by "
+        "one scalar per column; kind/norba/norbb not re-assigned after construction; theorems over Q (doubles exact on "
+        "the dyadic alphabet, tolerant comparison in the direct search).",
+        "DESIGN.md §5 C12, Appendix A.2",
+    ),
 }
 
 NOT_YET = {}
